@@ -5,7 +5,9 @@ C2S : every compiled network of the corpus (emphasis on cascades / rolling buffe
       from the decoded registers of the *output file*; the expected writer tag (storage identity, logical
       offset) comes from the high-level command list observed in the compiling process (harness/logical.py).
       NpuTagTrace.tla executes the stream in program order over tagged memory and decides NoUninitRead,
-      ReadsIntended, DmaCopiesDefined, DmaCopiesIntended, and OutputsDefined: when a stream ends, every byte of the custom
+      ReadsIntended, DmaCopiesDefined, DmaCopiesIntended, ElidedCopySameBytes (a feature-map copy the compiler elided - no
+      operation in the stream - moves nothing: source and destination must be the same bytes of the same memory, equal
+      offsets in two memories are not), and OutputsDefined: when a stream ends, every byte of the custom
       operator's results - at the arena offsets the output file publishes - has been defined by it.  That discharges the
       assumption "inputs of an NPU subgraph are defined on entry" for tensors produced by an earlier NPU subgraph.
 MC  : the producer/consumer interleaving that makes rolling buffers safe is model-checked in Cascade.tla (see C10).
@@ -17,6 +19,7 @@ from .. import artefact, cells, corpus, logical, npuhw, streams, tlc, vela_run
 from ..common import Run, MachineryError, seed
 
 CLOBBER = -1
+N_MEMONLY, N_FC_BATCH = 6, 6      # networks of the opt-in families per quick run (tiny: well below a second each)
 
 
 def cterm(f, c):
@@ -70,17 +73,20 @@ def stream_trace(tid, ops, lg, accel, outs=()):
         aliases[al["before"]].append(al)
 
     def alias_events(k):
-        # elided copy (high-level NOP: source and destination share one address): an in-place DMA of the tensor onto
-        # itself - the bytes must hold the source tensor and are the destination tensor from here on
+        # elided copy (high-level NOP, nothing in the stream): the compiler claims that the bytes of the source tensor ARE the
+        # destination tensor.  The specification gets the cells of both tensors - each in the memory (region) it is allocated
+        # in - and decides whether they are the same bytes (Alias action, ElidedCopySameBytes)
         for al in aliases.get(k, []):
             n = min(al["in"]["size"], al["out"]["size"])
             if n <= 0:
                 continue
-            evs.append(("dma", {"i": min(k, max(len(cmds) - 1, 0)), "mode": "retag", "src": (al["in"]["region"], al["in"]["addr"], n),
-                                "dst": (al["out"]["region"], al["out"]["addr"], n), "shift": al["in"]["addr"] - al["out"]["addr"],
-                                "insid": al["in"]["sid"], "indelta": -al["in"]["addr"], "outsid": al["out"]["sid"],
-                                "outdelta": -al["out"]["addr"], "name": al["name"]}))
+            evs.append(("alias", {"i": min(k, max(len(cmds) - 1, 0)), "src": (al["in"]["region"], al["in"]["addr"], n),
+                                  "dst": (al["out"]["region"], al["out"]["addr"], n),
+                                  "insid": al["in"]["sid"], "indelta": -al["in"]["addr"], "outsid": al["out"]["sid"],
+                                  "outdelta": -al["out"]["addr"], "name": al["name"]}))
             mech.add("elided_copy")
+            if (al["in"]["region"], al["in"]["addr"]) != (al["out"]["region"], al["out"]["addr"]):
+                mech.add("elided_copy_between_memories")
     for k, (o, c) in enumerate(zip(ops, cmds)):
         alias_events(k)
         regs = o["regs"]
@@ -154,8 +160,9 @@ def stream_trace(tid, ops, lg, accel, outs=()):
         if k == "k":
             for s in p["rd"] + p["wr"]:
                 mark(s[1], s[2], s[3])
-        elif p["src"][:2] == p["dst"][:2]:        # elided copy: no DMA registers, its extent delimits cells like an access
+        elif k == "alias":                        # elided copy: no DMA registers, the extents of both tensors delimit cells
             mark(*p["src"])
+            mark(*p["dst"])
     outs = [(nm, off, n) for (nm, off, n) in outs if n > 0]
     for (_, off, n) in outs:
         mark(1, off, n)
@@ -170,6 +177,9 @@ def stream_trace(tid, ops, lg, accel, outs=()):
             lines.append({"t": tid, "e": "Dma", "i": p["i"], "mode": p["mode"], "src": cl(*p["src"]), "dst": cl(*p["dst"]),
                           "shift": p["shift"], "insid": p["insid"], "indelta": p["indelta"], "outsid": p["outsid"],
                           "outdelta": p["outdelta"]})
+        elif k == "alias":
+            lines.append({"t": tid, "e": "Alias", "i": p["i"], "src": cl(*p["src"]), "dst": cl(*p["dst"]), "insid": p["insid"],
+                          "indelta": p["indelta"], "outsid": p["outsid"], "outdelta": p["outdelta"]})
         else:
             lines.append({"t": tid, "e": "Kernel", "i": p["i"],
                           "rd": [{"w": s[0].rstrip("~"), "cells": cl(s[1], s[2], s[3]), "sid": s[4], "delta": s[5],
@@ -234,6 +244,9 @@ def jobs_for(tier, sd):
     # graph shapes (corpus_shapes.py); emphasis: reshapes between NPU operators, non-square transposes, a table reused across
     # operators without a table on 16-bank parts, tensors read inside and outside their NPU subgraph
     jobs += corpus.shape_jobs(sd, tier, extra=["reshape_between"] * 2 + ["tr_hw"] * 2 + ["lut_gap"] * 3 + ["skip_out"] * 3, thorough=25)
+    # opt-in graph shapes: memory-only operators directly on tensors entering the NPU subgraph (copies between the arena and
+    # the fast storage, elided in one-memory modes); FULLY_CONNECTED with batches 1..17 laid out over H x W
+    jobs += corpus.shape_jobs(sd, tier, families=[], extra=["memonly_first"] * N_MEMONLY + ["fc_batch"] * N_FC_BATCH, thorough=12)
     return jobs
 
 
@@ -298,6 +311,17 @@ def main(tier):
                               "offset the output file publishes (%s with %s)" % (v[3][4:], j["family"], j["opts"]),
                               {"net": j["net"], "opts": j["opts"], "violated": v[1:], "outs": s.get("outs")})
                 continue
+            if v[1] == "ElidedCopySameBytes":
+                al = next((a for a in lg.get("aliases", []) if min(a["before"], max(len(lg["cmds"]) - 1, 0)) == v[2]
+                           and (a["in"]["region"], a["in"]["addr"]) != (a["out"]["region"], a["out"]["addr"])), {})
+                run.violation("ElidedCopySameBytes|%s" % j["family"].split(":")[0],
+                              "ElidedCopySameBytes: the copy of '%s' (region %s, offset %s) to '%s' (region %s, offset %s) was elided although "
+                              "they are not the same bytes: no operation of the stream writes the destination (%s with %s)" % (
+                                  al.get("in", {}).get("name"), al.get("in", {}).get("region"), al.get("in", {}).get("addr"),
+                                  al.get("out", {}).get("name"), al.get("out", {}).get("region"), al.get("out", {}).get("addr"),
+                                  j["family"], j["opts"]),
+                              {"net": j["net"], "opts": j["opts"], "violated": v[1:], "alias": al})
+                continue
             cmd = lg["cmds"][v[2]] if v[2] < len(lg["cmds"]) else {}
             key = "%s|%s|%s|%s" % (v[1], v[3], cmd.get("op", cmd.get("type")), j["family"].split(":")[0])
             f = cmd.get("ifm") if v[3] == "ifm" else None
@@ -341,6 +365,24 @@ def main(tier):
     if not any(v[1] == "OutputsDefined" for v in viol):
         raise MachineryError("negative control failed: results of a stream without operations accepted as defined")
     run.cov["negative_control_outputs"] = "results of a stream whose operations were removed rejected (OutputsDefined)"
+    # negative control of ElidedCopySameBytes: a tensor of 2 cells in memory A (cells 0, 1) defined on entry, its copy to the
+    # consumer's tensor elided, the consumer reads cells 0, 1 (accepted: the same bytes) / cells 2, 3 = the same OFFSET in
+    # another memory (rejected, and the consumer's read is of bytes nothing wrote)
+    def elided(t, dst):
+        return [{"t": t, "e": "Hdr", "ncells": 5, "init": [{"cells": [0, 1], "sid": 1, "delta": 0}]},
+                {"t": t, "e": "Alias", "i": 0, "src": [0, 1], "dst": dst, "insid": 1, "indelta": 0, "outsid": 2, "outdelta": 0},
+                {"t": t, "e": "Kernel", "i": 0, "rd": [{"w": "ifm", "cells": dst, "sid": 2, "delta": 0, "sidonly": False}],
+                 "wr": [{"cells": [4], "sid": 3, "delta": 0}]},
+                {"t": t, "e": "Stop"}]
+    _, viol = tlc.validate_traces("NpuTagTrace", "NpuTagTrace.cfg", elided(1, [0, 1]) + elided(2, [2, 3]))
+    if any(v[0] == 1 for v in viol):
+        raise MachineryError("control failed: an elided copy of a tensor onto its own bytes rejected (%s)" % viol)
+    if {v[1] for v in viol if v[0] == 2} != {"ElidedCopySameBytes", "NoUninitRead", "ReadsIntended"}:
+        raise MachineryError("negative control failed: an elided copy between two memories (equal offsets) accepted (%s)" % viol)
+    run.cov["negative_control_elided_copy"] = ("elided copy onto the same bytes accepted; elided copy to the same offset of another "
+                                               "memory rejected (ElidedCopySameBytes, and the consumer's read as NoUninitRead)")
+    run.cov["elided_copies"] = sum(1 for e in events if e["e"] == "Alias")
+    run.cov["elided_copies_between_memories"] = mech_count.get("elided_copy_between_memories", 0)
     run.cov["streams_with_published_results"] = sum(1 for e in events if e["e"] == "Out")
     run.cov["mechanisms"] = dict(mech_count)
     run.cov["rule"] = ("one trace per ethos-u custom operator of each compiled corpus network; non-trivial = the stream uses a "
